@@ -100,6 +100,9 @@ def one_case(ctx, mon, steps, rate, accel, accum, via="calculate_lm"):
                                                        "got": got, "expected": mon.res.duration})
         elif via == "default-accum":
             ebb_calc.calculate_lm(steps, rate, accel)
+        elif (steps + rate) % 9 == 0:
+            G.by_keyword(ebb_calc.calculate_lm, (steps, rate, accel, accum))
+            ctx.tag("arguments passed by keyword")
         else:
             ebb_calc.calculate_lm(steps, rate, accel, accum)
     except Exception as exc:
@@ -212,7 +215,7 @@ def run(ctx):
     import_time_phase(ctx, ctx.budget(600, 5000))
     mon = install(ctx)
     for cls in NEEDED + ["history: related arguments after a previous call", "module imported under low precision",
-                         "'clear' passed as a string built at run time",
+                         "'clear' passed as a string built at run time", "arguments passed by keyword",
                          "after a failed call (malformed arguments, exception caught by the caller)"]:
         ctx.need(cls, 30)
     ctx.need("monitor:calculate_lm evaluated", 30_000)
